@@ -31,10 +31,15 @@ type Case struct {
 	Types    []string `json:"types"`    // record types the path answers (others are refused)
 	Limit    int      `json:"limit"`    // 0 = none; answers larger than this are dropped / truncated
 	Trunc    bool     `json:"trunc"`
+	DomLen   int      `json:"domain_length,omitempty"` // 0 = the default tunnel domain; else a domain of this many characters
 }
 
 func (c Case) String() string {
-	return fmt.Sprintf("casing=%s 8bit=%s types=%v limit=%d trunc=%v", c.Casing, c.EightBit, c.Types, c.Limit, c.Trunc)
+	d := ""
+	if c.DomLen > 0 {
+		d = fmt.Sprintf(" domainLength=%d", c.DomLen)
+	}
+	return fmt.Sprintf("casing=%s 8bit=%s types=%v limit=%d trunc=%v%s", c.Casing, c.EightBit, c.Types, c.Limit, c.Trunc, d)
 }
 
 var typeNames = map[string]dnsmessage.Type{"NULL": util.QueryTypeNull, "PRIVATE": util.QueryTypePrivate, "TXT": util.QueryTypeTxt, "SRV": util.QueryTypeSrv, "MX": util.QueryTypeMx, "CNAME": util.QueryTypeCname, "AAAA": util.QueryTypeAAAA, "A": util.QueryTypeA}
@@ -44,7 +49,7 @@ var priority = []string{"NULL", "PRIVATE", "TXT", "SRV", "MX", "CNAME", "AAAA", 
 // question of a packed query (labels in front of the tunnel domain only).
 func rewriteName(c Case, exch int, wire []byte) []byte {
 	i := 12
-	domLabels := strings.Count(world.DnsDomain, ".") + 1
+	domLabels := strings.Count(caseDomain(c), ".") + 1
 	// find label offsets
 	var offs []int
 	for i < len(wire) && wire[i] != 0 {
@@ -95,6 +100,23 @@ func rewriteName(c Case, exch int, wire []byte) []byte {
 	return wire
 }
 
+// caseDomain is the tunnel domain of a case: the default one, or a valid name of exactly
+// DomLen characters (labels of at most 59).
+func caseDomain(c Case) string {
+	if c.DomLen <= 0 {
+		return world.DnsDomain
+	}
+	var b []byte
+	for len(b) < c.DomLen {
+		if len(b) > 0 && (len(b)+1)%60 == 0 && len(b) < c.DomLen-1 {
+			b = append(b, '.')
+			continue
+		}
+		b = append(b, byte('a'+len(b)%26))
+	}
+	return string(b)
+}
+
 func execute(t *testing.T, c Case) (kind, detail string, hsOK bool) {
 	res := bubble.Run(t, func() {
 		allowed := map[uint16]bool{}
@@ -104,7 +126,7 @@ func execute(t *testing.T, c Case) (kind, detail string, hsOK bool) {
 		path := world.DnsPath{MaxAns: c.Limit, Truncate: c.Trunc}
 		path.QueryWire = func(exch int, wire []byte) []byte { return rewriteName(c, exch, wire) }
 		path.Query = func(exch int, q *dns.Msg) bool { return true }
-		w, err := world.New(world.Options{Carrier: "dns", Channels: []string{"x"}, DnsRaw: true, DnsPath: path})
+		w, err := world.New(world.Options{Carrier: "dns", Channels: []string{"x"}, DnsRaw: true, DnsPath: path, DnsDomain: caseDomain(c)})
 		if err != nil {
 			kind, detail = "setup", err.Error()
 			return
@@ -320,6 +342,15 @@ func cases(thorough bool) []Case {
 	}
 	base := Case{Casing: "none", EightBit: "transparent", Types: priority}
 	add(base)
+	// the tunnel domain's length decides how much of a query name is left for data: every
+	// handshake message must still be encodable (or the handshake must fail, not hang)
+	for _, l := range []int{4, 30, 60, 100, 140, 170, 180, 190, 200, 210, 220, 230, 240} {
+		for _, e := range []string{"transparent", "strip"} {
+			c := base
+			c.DomLen, c.EightBit = l, e
+			add(c)
+		}
+	}
 	// one factor at a time
 	for _, x := range casings {
 		c := base
